@@ -938,7 +938,19 @@ class Node:
                             conn, DISCONNECT_REASON_CLEAN_DISCONNECT)
 
             for conn in list(self.connections.values()):
-                self._check_timers(conn)
+                # a wake-up can get lost (the pipe was full when the connection
+                # asked for attention): what only a wake-up closes is looked
+                # after in every round as well
+                if conn.state == PEER_CLOSED:
+                    self.close_connection_socket(
+                        conn, DISCONNECT_REASON_CLEAN_DISCONNECT)
+                elif (not conn.has_queued_messages and
+                        len(conn.write_buffer) == 0 and
+                        conn.state == PEER_CLOSING):
+                    self.close_connection_socket(
+                        conn, DISCONNECT_REASON_CLEAN_DISCONNECT)
+                else:
+                    self._check_timers(conn)
 
             self._reconnect_peers()
 
